@@ -114,17 +114,25 @@ func c20Shape(r *Rand, shape, size int) Doc {
 		dd.Class = "shape-deep"
 		return dd
 	case 4: // many children, each with an escaped string / key
-		unit := []string{`["\n"],`, `{"\n":1},`, `{"a":"é\n"},`, `[["\t"]],`, `"\n",`}[r.Intn(5)]
+		unit := []string{`["\n"],`, `{"\n":1},`, `{"a":"é\n"},`, `[["\t"]],`, `"\n",`, `["\u20ac\u20ac\u20ac"],`, `{"\u00e9\u00e9":"\ud83d\ude00"},`}[r.Intn(7)]
 		n := size / len(unit)
 		if n < 1 {
 			n = 1
 		}
 		return docRep("shape-escaped-children", "[", 1, unit, n, "1]", 1)
-	case 5: // long string with an early escape; long all-escape string
-		if r.Chance(1, 2) {
+	case 5: // long string with an early escape; long all-escape string; long runs of \uXXXX escapes
+		switch r.Intn(5) {
+		case 0:
 			return docRep("shape-long-string", `["\n`, 1, "a", size, `"]`, 1)
+		case 1:
+			return docRep("shape-long-string", `{"k":"`, 1, `\né`, size/8+1, `"}`, 1)
+		case 2:
+			return docRep("shape-long-string", `["`, 1, `\u20ac`, size/6+1, `"]`, 1)
+		case 3:
+			return docRep("shape-long-string", `"`, 1, `\ud83d\ude00`, size/12+1, `"`, 1)
+		default:
+			return docRep("shape-long-string", `{"`, 1, `\u00e9\u0041`, size/12+1, `":"`, 1, `x\uFFFF`, size/14+1, `"}`, 1)
 		}
-		return docRep("shape-long-string", `{"k":"`, 1, `\né`, size/8+1, `"}`, 1)
 	case 6: // wide scalar array / object
 		if r.Chance(1, 2) {
 			return docRep("shape-wide", "[", 1, "1.5,", size/4+1, "2]", 1)
